@@ -952,6 +952,9 @@ func genStmt(r *rng, noShare bool) string {
 	case 3:
 		return "func " + pick(r, []string{"g1", "g2"}) + "(n) { return n + " + pick(r, []string{"1", "d6", "v1", "2d4", "this.k"}) + " }"
 	case 4:
+		if r.chance(1, 4) {
+			return pick(r, []string{"func k1(n) { return n + 6a10 }", "func k2() { return [b2, p1] }", "&k3 = 5c8 + f", "func k4(n) { return n + 2a8k6 + b }", "&k5 = p2 + 3c9m10"})
+		}
 		if r.chance(1, 3) {
 			// functions that call themselves / each other: a restored function is compiled on its first call, which may nest
 			return pick(r, []string{
@@ -998,6 +1001,7 @@ var followUps = []string{
 	"v1", "v2", "v3", "m1", "m2", "w1", "w2", "g1", "g2", "h1", "g1(1)", "g2(3)", "h1()", "g1(1) + g1(2)", "w1 + w1", "&w1.x", "w1 + d6", "2d6 + g1(1)", "m2.f(1)", "m2.c", "m2.l[0]()", "m2.l[0](1)",
 	"[v1, v2, v3]", "v1 == v2", "v3[0]", "m1.k", "m1.x", "m1.keys().len()", "v1.len()", "v1.sum()", "[1,2,3,4,5].shuffle()", "toStr(v1) + toStr(m1.k)", "repr(g1)", "repr(w1)", "loadRaw('w1')", "loadRaw('w1').x",
 	"loadRaw('w2').compute()", "v1 = g1(5); v1", "m1.q = h1(); m1", "g1 = 5; g1", "func g1(n) { return n * 2 }; g1(4)", "&w1 = 3; w1", "w1.x", "h1() + h1()", "i = 0; s = 0; while i < 3 { s = s + g1(i); i = i + 1 }; s",
+	"k1(100)", "k2()", "k3", "k4(1) + k3", "k5 + k5", "gold = 5; gold; gold + gold; [v1, v2, m1]", "zz9 = 1; zz9; zz9; zz9; [v1, v2, v3, m1, m2, zz9]", "qq = v1; qq; qq; g1(1)",
 	"r1(10)", "r1(6) + r1(3)", "r2(3)", "e1(6)", "o1(5)", "r3(4)", "r4(3)", "r2(2) + toStr(e1(3))", "r1(5); r1(5)",
 	"typeId(g1)", "typeId(w1)", "dir(v1).len()", "v1.push(g1); v1.len()", "v1.rand()", "d20", "`x{g1(1)}y{w1}`",
 }
@@ -1152,10 +1156,22 @@ func snapshotAt(cfg vmCfg, hi, lo uint64, prog []string, p int, follow []string,
 			report(t)
 			continue
 		}
-		b := newVM(cfg, 0, 0, true)
-		_ = b.RandSrc.UnmarshalBinary(seedBytes)
-		b.Attrs = &ds.ValueMap{}
-		_ = json.Unmarshal(text, b.Attrs)
+		usedTarget := len(fu)%2 == 1
+		mkB := func() *ds.Context {
+			b := newVM(cfg, 0, 0, true)
+			if usedTarget {
+				// the receiving VM was used before (a pooled VM): restoring replaces its variables all the same
+				runQuiet(b, "hp9 = 1; round9 = 7; v1 = 'old'")
+				runQuiet(b, "hp9 + round9")
+				_ = json.Unmarshal(text, b.Attrs)
+			} else {
+				b.Attrs = &ds.ValueMap{}
+				_ = json.Unmarshal(text, b.Attrs)
+			}
+			_ = b.RandSrc.UnmarshalBinary(seedBytes)
+			return b
+		}
+		b := mkB()
 		oa, ob := observe(a, fu), observe(b, fu)
 		follows++
 		if oa != ob {
@@ -1168,10 +1184,7 @@ func snapshotAt(cfg vmCfg, hi, lo uint64, prog []string, p int, follow []string,
 				for q := 0; q < p; q++ {
 					runQuiet(a2, prog[q])
 				}
-				b2 := newVM(cfg, 0, 0, true)
-				_ = b2.RandSrc.UnmarshalBinary(seedBytes)
-				b2.Attrs = &ds.ValueMap{}
-				_ = json.Unmarshal(text, b2.Attrs)
+				b2 := mkB()
 				seenA[observe(a2, fu)] = true
 				seenB[observe(b2, fu)] = true
 			}
@@ -1183,6 +1196,9 @@ func snapshotAt(cfg vmCfg, hi, lo uint64, prog []string, p int, follow []string,
 			}
 			t := base
 			t.Stage, t.Follow, t.Orig, t.Rest = "follow", fu, oa, ob
+			if usedTarget {
+				t.Detail = "restored into a VM that was used before: hp9 = 1; round9 = 7; v1 = 'old'; hp9 + round9"
+			}
 			if hasNative(origDump) {
 				t.Outside = "native function value in the variables"
 			}
@@ -1198,10 +1214,22 @@ func transCase(r *rng, cfg vmCfg, nStmts int, report func(transOut)) (snaps, fol
 	for j := 0; j < nStmts; j++ {
 		prog = append(prog, genStmt(r, noShare))
 	}
+	// definitions whose meaning depends on the VM's configuration (dice dialects) or that recurse: always one of them,
+	// used by a follow-up at the final snapshot
+	special := [][2]string{{"func k1(n) { return n + 6a10 }", "k1(100)"}, {"func k2() { return [b2, p1] }", "k2()"}, {"&k3 = 5c8 + f", "k3 + k3"},
+		{"func k4(n) { return n + 2a8k6 + b }", "k4(1)"}, {"&k5 = p2 + 3c9m10", "k5"},
+		{"func r1(n) { if n < 2 { return n }; return r1(n-1) + r1(n-2) }", "r1(9)"},
+		{"func e1(n) { if n == 0 { return 1 }; return o1(n-1) }; func o1(n) { if n == 0 { return 0 }; return e1(n-1) }", "e1(6)"}}
+	sp := pick(r, special)
+	at := r.intn(len(prog) + 1)
+	prog = append(prog[:at], append([]string{sp[0]}, prog[at:]...)...)
 	hi, lo := r.u64(), r.u64()
 	deep := map[int]bool{r.intn(len(prog) + 1): true, len(prog): true}
 	for p := 0; p <= len(prog); p++ {
 		var fus []string
+		if p == len(prog) {
+			fus = append(fus, sp[1], "zz9 = 1; zz9; zz9; zz9; "+sp[1])
+		}
 		if deep[p] {
 			for k := 0; k < 6; k++ {
 				fu := pick(r, followUps)
@@ -1486,6 +1514,11 @@ func init() {
 		byStage := map[string]int{}
 		for k := 0; k < *n; k++ {
 			cfg := vmCfg{OpLimit: 50000}
+			if r.chance(1, 2) {
+				// the dice dialects are part of the VM's configuration: functions / computed values that use them must mean the same
+				// after a restore into a VM configured the same way
+				cfg.WoD, cfg.CoC, cfg.Fate, cfg.DC = true, true, true, true
+			}
 			s, f := transCase(r, cfg, 3+r.intn(6), func(t transOut) {
 				byStage[t.Stage]++
 				if t.Stage == "nondeterministic-replay" || t.Stage == "nondeterministic-follow" {
